@@ -154,14 +154,22 @@ def evaluate(case):
                         t = t.type
                     tn = t.name.value
                     vn = v.variable.name.value
-                    if tn.startswith("I"):
+                    gt = schema.type_map[tn]
+                    if is_input_object_type(gt):
                         cls = getattr(mod, tn)
                         kw = {"x": 1}
                         if "e" in cls.model_fields:
-                            kw["e"] = list(getattr(mod, "E" + tn[1:]))[0]
+                            kw["e"] = list(getattr(mod, get_named_type(gt.fields["e"].type).name))[0]
                         kwargs[vn] = cls(**kw)
                     else:
                         kwargs[vn] = list(getattr(mod, tn))[1]
+                    # (list-typed variables: wrap the value as deep as the variable's type says)
+                    t2, depth = v.type, 0
+                    while t2.kind != "named_type":
+                        depth += t2.kind == "list_type"
+                        t2 = t2.type
+                    for _ in range(depth):
+                        kwargs[vn] = [kwargs[vn]]
                 captured = {}
 
                 def handler(request):
@@ -198,6 +206,13 @@ def build_groups(tier):
                 names = [names[(gi + seed()) % len(names)], "one"] if gi % 2 == 0 else [names[(gi + seed()) % len(names)]]
             for on in dict.fromkeys(names):
                 groups.append(dict(n=n, edges=sorted(edges), opset=on, schema=make_schema(n, edges), queries=opsets[on]))
+            # enum / input NAMES whose case-sensitive, case-insensitive and snake/Pascal orders all differ (acronyms next to ordinary names)
+            if (n == 2 and tier != "quick") or (n == 2 and gi % 4 == seed() % 4) or (n == 3 and gi % 64 == seed() % 64):
+                ren = {"E1": "Unit", "E2": "URLKind", "E3": "order_by", "E4": "HTTPMethod", "E5": "Height", "EVar": "UserZone", "ES": "Users", "EUnused": "userUnused", "I1": "inputA", "I2": "InputB", "I3": "INPUTC"}
+                import re as _re
+                sub = lambda t: _re.sub(r"\b(E[1-5]|EVar|ES|EUnused|I[1-3])\b", lambda m: ren[m.group(1)], t)
+                for on in ("two", "fragment_and_var_enum", "last_input", "enums_in_two_fragments"):
+                    groups.append(dict(n=n, edges=sorted(edges), opset=on + "+mixed_case_names", schema=sub(make_schema(n, edges)), queries=sub(opsets[on])))
             # the only variable that reaches the last input is wrapped in every list / non-null shape (three representative graphs)
             if n == 2 and sorted(edges) in ([], [(2, 1)], [(1, 2), (2, 1)]):
                 from mc import corpus
